@@ -1044,6 +1044,16 @@ class Prov:
             if isinstance(a, (Tree, Temp, Src, ListV)) and isinstance(b, (Tree, Temp, Src, ListV)):
                 same = (a is b) or (isinstance(a, Src) and isinstance(b, Src) and a == b)
                 return [(same == isinstance(test.ops[0], ast.Is), env)]
+        if isinstance(test, ast.Compare) and len(test.ops) == 1 and isinstance(test.ops[0], (ast.Is, ast.IsNot)) and \
+                isinstance(test.left, ast.Name) and isinstance(test.comparators[0], ast.Constant) and test.comparators[0].value is None:
+            a = env.vars.get(test.left.id)
+            is_none = None
+            if isinstance(a, tuple) and len(a) == 2 and a[0] == 'const':
+                is_none = a[1] is None
+            elif isinstance(a, (Temp, ListV)):
+                is_none = False
+            if is_none is not None:
+                return [(is_none == isinstance(test.ops[0], ast.Is), env)]
         # len(<source list>) <op> <int>: remember an upper bound of the length on the branch where it holds
         if isinstance(test, ast.Compare) and len(test.ops) == 1 and isinstance(test.left, ast.Call) and isinstance(test.left.func, ast.Name) \
                 and test.left.func.id == 'len' and len(test.left.args) == 1 and isinstance(test.comparators[0], ast.Constant) and isinstance(test.comparators[0].value, int):
